@@ -125,8 +125,8 @@ def main():
             level_note=c["note"], technique=c["technique"]))
     m = dict(
         version=1, setup_cmd="./check --build",
-        hooks=dict(guard="verif", enable="go test -tags verif (the check driver always builds the harness with -tags verif; no hook code exists in /repo, so the tag currently selects nothing)",
-                   baseline_off_cmd="/verif/baseline.sh", source_commits=[], add_only=True),
+        hooks=dict(guard="verif", enable="go test -tags verif (the check driver always builds the harness with -tags verif). One hook file, /repo/e2e/a_verif_hook.go: with the tag on, the test application also registers the farm escrow_collector module account, so that the farm community pool proposal path (C06) can run on it; nothing else in /repo depends on the tag",
+                   baseline_off_cmd="/verif/baseline.sh", source_commits=["6ae2b7e"], add_only=True),
         engines=[dict(name="rapid-harness", path="/verif/harness", serves_properties=[c["property_id"] for c in checks],
                       kind_free_text="Go test binaries (one per property package under harness/props): pgregory.net/rapid v1.3.0 state machines and pure properties over a cache-branched SimApp (K-driver) or an ABCI-level node (A-driver), driven by /verif/check which shards, merges statistics into evidence and maps outcomes to exit codes")],
         checks=checks, not_applicable=na,
